@@ -226,7 +226,7 @@ func (c *Ctx) sigHash() (uint64, string) {
 // ends as passed.
 func (c *Ctx) Violation(class, site string, format string, args ...interface{}) {
 	c.T.Helper()
-	fp := class + ":" + site
+	fp := strings.ReplaceAll(class+":"+site, " ", "_")
 	detail := fmt.Sprintf(format, args...)
 	if len(detail) > 2000 {
 		detail = detail[:2000] + "…"
